@@ -1098,3 +1098,424 @@ Proof.
     + intros A. cbn [released set_slots s1 set_loose] in A. congruence.
   - eapply hinv_same; try exact Hh; reflexivity.
 Qed.
+
+Lemma cq_ids_app s c : released s = false ->
+  cq_ids (set_cq s (cq s ++ [c])) = cq_ids s ++ match c_id c with Some i => [i] | None => [] end.
+Proof.
+  intros Hr. unfold cq_ids. cbn [released set_cq cq]. rewrite Hr, map_app, opt_ids_app. cbn [map opt_ids flat_map].
+  rewrite app_nil_r. reflexivity.
+Qed.
+
+Lemma hinv_kernel s s1 k o oid more r :
+  hinv s -> ops s1 = ops s -> cq s1 = cq s -> released s1 = released s ->
+  nth_error (ops s) k = Some o -> o_kdone o = false ->
+  hinv (set_cq (upd_op s1 k (mk_op (o_inflight o && more) (negb more) (o_buf o) (o_q o) (o_res o)))
+               (cq s1 ++ [mk_cqe k oid more r])).
+Proof.
+  intros [A B C] Ho Hc Hr Hk Hd.
+  pose proof (nth_error_lt _ _ _ Hk) as Hlt.
+  constructor.
+  - unfold upd_op, set_ops, set_cq. cbn [cq ops]. rewrite Ho, Hc, set_nth_length.
+    apply Forall_app. split; [exact A|]. constructor; [exact Hlt|constructor].
+  - unfold upd_op, set_ops, set_cq. cbn [ops]. rewrite Ho. apply Forall_set_nth; [exact B|].
+    cbn [o_inflight o_kdone]. destruct more; [reflexivity|]. rewrite Bool.andb_false_r. discriminate.
+  - unfold upd_op, set_ops, set_cq. cbn [released cq ops]. rewrite Ho, Hc, Hr. intros R k' o1 Hk' Hd' Hr'.
+    destruct (Nat.eq_dec k k') as [<-|Hne].
+    + rewrite set_nth_eq in Hk' by exact Hlt. injection Hk' as <-. cbn [o_kdone] in Hd'.
+      exists (mk_cqe k oid more r). split; [apply in_or_app; right; left; reflexivity|].
+      split; [reflexivity|]. cbn [c_more]. destruct more; [discriminate|reflexivity].
+    + rewrite set_nth_neq in Hk' by exact Hne. destruct (C R k' o1 Hk' Hd' Hr') as (c & Hin & E1 & E2).
+      exists c. split; [apply in_or_app; left; exact Hin|]. split; assumption.
+Qed.
+
+Lemma step_LKernel s k sel more r : inv s -> good s (step s (LKernel k sel more r)).
+Proof.
+  intros (P & Hh). cbn [step]. destruct (nth_error (ops s) k) as [o|] eqn:Hk; [|exact I].
+  destruct (o_kdone o) eqn:Hd; cbn [orb]; [exact I|].
+  destruct (uring s && negb (o_inflight o)); [exact I|].
+  set (o' := mk_op (o_inflight o && more) (negb more) (o_buf o) (o_q o) (o_res o)).
+  destruct sel.
+  - destruct (uring s) eqn:Hu; cbn [negb orb]; [|exact I].
+    destruct (released s) eqn:Hr; cbn [orb]; [exact I|].
+    destruct (rescls_eqb r RNoBufs); [exact I|].
+    pose proof (pinv_ring_pop [] [] s P Hu Hr) as Hpop.
+    destruct (ring_ids s) as [|id rest] eqn:Hri.
+    + rewrite Hpop. exact I.
+    + destruct Hpop as (s1 & Hks & P1 & Hsh & Hsl). rewrite Hks. cbn [good].
+      pose proof Hsh as (Hu1 & Hn1 & Hr1 & Hp1 & Ho1 & Hc1 & Hl1 & Hh1 & Hb1).
+      assert (Hk1 : nth_error (ops s1) k = Some o) by (rewrite Ho1; exact Hk).
+      split.
+      * apply (pinv_shift [id] [] [] [] s1 _ P1).
+        -- repeat split.
+        -- intros x. pose proof (sums_upd_op s1 k o o' x Hk1) as (A & _).
+           unfold guard_ids_of in A. cbn [o_q o'] in A.
+           unfold Ssum in *.
+           change (guard_ids (set_cq (upd_op s1 k o') _)) with (guard_ids (upd_op s1 k o')).
+           change (loose (set_cq (upd_op s1 k o') _)) with (loose (upd_op s1 k o')).
+           change (cq s1) with (cq (upd_op s1 k o')).
+           rewrite (cq_ids_app (upd_op s1 k o')) by (cbn [released upd_op set_ops]; congruence).
+           cbn [c_id]. occs. lia.
+        -- intros x. pose proof (sums_upd_op s1 k o o' x Hk1) as (_ & A). cbn [o_buf o'] in A.
+           change (Osum (set_cq (upd_op s1 k o') _) x) with (Osum (upd_op s1 k o') x). lia.
+        -- intros A. congruence.
+      * apply (hinv_kernel s s1 k o (Some id) more r); assumption.
+  - destruct (rescls_eqb r RNoBufs && negb (uring s && ring_empty s && negb more)); [exact I|].
+    destruct (rescls_eqb r ROk && uring s); [exact I|].
+    cbn [good]. split.
+    + apply (pinv_shift [] [] [] [] s _ P).
+      * repeat split.
+      * intros x. pose proof (sums_upd_op s k o o' x Hk) as (A & _).
+        unfold guard_ids_of in A. cbn [o_q o'] in A. unfold Ssum in *.
+        change (guard_ids (set_cq (upd_op s k o') _)) with (guard_ids (upd_op s k o')).
+        change (loose (set_cq (upd_op s k o') _)) with (loose (upd_op s k o')).
+        destruct (released s) eqn:Hr.
+        -- unfold cq_ids in *. cbn [released set_cq upd_op set_ops] in *. rewrite Hr in *. lia.
+        -- change (cq s) with (cq (upd_op s k o')).
+           rewrite (cq_ids_app (upd_op s k o')) by (cbn [released upd_op set_ops]; congruence).
+           cbn [c_id]. occs. lia.
+      * intros x. pose proof (sums_upd_op s k o o' x Hk) as (_ & A). cbn [o_buf o'] in A.
+        change (Osum (set_cq (upd_op s k o') _) x) with (Osum (upd_op s k o') x). lia.
+      * intros A. destruct (p_rel _ _ _ P A) as (_ & _ & B & _). split; [exact B|reflexivity].
+    + apply (hinv_kernel s s k o None more r); try assumption; reflexivity.
+Qed.
+
+Lemma step_LCqDrain s : inv s -> good s (step s LCqDrain).
+Proof.
+  intros (P & Hh). cbn [step]. destruct (released s) eqn:Hr; [|exact I].
+  destruct (cq s) as [|c rest] eqn:Hc; [exact I|]. cbn [good]. split.
+  - apply (pinv_shift [] [] [] [] s _ P).
+    + repeat split.
+    + intros x. unfold Ssum, cq_ids. cbn [released set_cq]. rewrite Hr. reflexivity.
+    + intros x; reflexivity.
+    + intros A. destruct (p_rel _ _ _ P A) as (_ & _ & B & _). split; [exact B|reflexivity].
+  - destruct Hh as [A B C]. constructor.
+    + cbn [set_cq cq ops]. rewrite Hc in A. inversion A; assumption.
+    + exact B.
+    + cbn [set_cq released]. intros R. congruence.
+Qed.
+
+Lemma step_LRelease s : inv s -> good s (step s LRelease).
+Proof.
+  intros (P & Hh). destruct (released s) eqn:Hr.
+  - cbn [step]. rewrite Hr. exact I.
+  - destruct (pinv_release s P Hr) as (s' & E & P' & Ho & Hc & Hr' & _). rewrite E. cbn [good].
+    split; [exact P'|]. destruct Hh as [A B C]. constructor.
+    + rewrite Ho, Hc. exact A.
+    + rewrite Ho. exact B.
+    + rewrite Hr'. discriminate.
+Qed.
+
+Lemma step_LGuardDrop s k : inv s -> good s (step s (LGuardDrop k)).
+Proof.
+  intros (P & Hh). cbn [step]. destruct (nth_error (ops s) k) as [o|] eqn:Hk; [|exact I].
+  destruct (op_free s o); cbn [negb]; [|exact I].
+  destruct (o_q o) as [|e q] eqn:Hq; [exact I|].
+  set (o' := mk_op (o_inflight o) (o_kdone o) (o_buf o) q (o_res o)).
+  assert (Hh' : hinv (upd_op s k o')) by (apply (hinv_upd_same s k o); try assumption; reflexivity).
+  pose proof (fun x => sums_upd_op s k o o' x Hk) as Hsum.
+  unfold guard_ids_of in Hsum. rewrite Hq in Hsum. cbn [o_q o_buf o'] in Hsum.
+  destruct e as [id|].
+  - destruct (released s) eqn:Hr.
+    + (* the pool is gone: BufferPool::reset finds no slot *)
+      destruct (p_rel _ _ _ P Hr) as (Hsl & _ & Hlo & _).
+      change (slots (upd_op s k o')) with (slots s). rewrite Hsl.
+      replace (slot_take [] id) with (@None (list bool)) by (unfold slot_take; destruct id; reflexivity).
+      cbn [good]. split; [|exact Hh'].
+      apply (pinv_shift [] [] [] [] s _ P).
+      * apply same_pool_upd_op.
+      * intros x. destruct (Hsum x) as (A & _). lia.
+      * intros x. destruct (Hsum x) as (_ & A). lia.
+      * intros _. split; [exact Hlo|reflexivity].
+    + assert (P1 : pinv [id] [] (upd_op s k o')).
+      { apply (pinv_shift [] [] [id] [] s _ P).
+        - apply same_pool_upd_op.
+        - intros x. destruct (Hsum x) as (A & _).
+          change (opt_ids (Some id :: q)) with ([id] ++ opt_ids q) in A. occs in A. occs. lia.
+        - intros x. destruct (Hsum x) as (_ & A). lia.
+        - intros A. congruence. }
+      destruct (pinv_slot_take id [] [] (upd_op s k o') P1 Hr) as (E & P2). rewrite E.
+      apply good_reset; [exact P2|].
+      eapply (hinv_same (upd_op s k o')); try exact Hh'; reflexivity.
+  - cbn [good]. split; [|exact Hh'].
+    apply (pinv_shift [] [] [] [] s _ P).
+    + apply same_pool_upd_op.
+    + intros x. destruct (Hsum x) as (A & _). change (opt_ids (None :: q)) with (opt_ids q) in A.
+      destruct (released s); lia.
+    + intros x. destruct (Hsum x) as (_ & A). lia.
+    + intros A. destruct (p_rel _ _ _ P A) as (_ & _ & B & _). split; [exact B|reflexivity].
+Qed.
+
+Lemma hinv_cqe s c rest o o' :
+  hinv s -> cq s = c :: rest -> nth_error (ops s) (c_op c) = Some o ->
+  o_inflight o' = o_inflight o -> o_kdone o' = o_kdone o ->
+  (c_more c = true -> o_res o' = o_res o) -> (c_more c = false -> o_res o' <> None) ->
+  hinv (upd_op (set_cq s rest) (c_op c) o').
+Proof.
+  intros [A B C] Hc Hk Hi Hd Hm Hf.
+  pose proof (nth_error_lt _ _ _ Hk) as Hlt.
+  assert (Hin : In o (ops s)) by (eapply nth_error_In; eauto).
+  constructor.
+  - unfold upd_op, set_ops, set_cq. cbn [cq ops]. rewrite set_nth_length. rewrite Hc in A. inversion A; assumption.
+  - unfold upd_op, set_ops, set_cq. cbn [ops]. apply Forall_set_nth; [exact B|].
+    rewrite Hi, Hd. rewrite Forall_forall in B. apply B. exact Hin.
+  - unfold upd_op, set_ops, set_cq. cbn [released cq ops]. intros R k' o1 Hk' Hd' Hr'.
+    destruct (Nat.eq_dec (c_op c) k') as [<-|Hne].
+    + rewrite set_nth_eq in Hk' by exact Hlt. injection Hk' as <-.
+      destruct (c_more c) eqn:Hmore.
+      * destruct (C R (c_op c) o Hk ltac:(congruence) ltac:(rewrite <- (Hm eq_refl); exact Hr')) as (w & Hin' & E1 & E2).
+        rewrite Hc in Hin'. destruct Hin' as [<-|Hin']; [congruence|]. exists w. tauto.
+      * exfalso. apply (Hf eq_refl). exact Hr'.
+    + rewrite set_nth_neq in Hk' by exact Hne.
+      destruct (C R k' o1 Hk' Hd' Hr') as (w & Hin' & E1 & E2).
+      rewrite Hc in Hin'. destruct Hin' as [<-|Hin']; [congruence|]. exists w. tauto.
+Qed.
+
+Lemma step_LCqe s : inv s -> good s (step s LCqe).
+Proof.
+  intros (P & Hh). cbn [step]. destruct (released s) eqn:Hr; [exact I|].
+  destruct (cq s) as [|c rest] eqn:Hc; [exact I|].
+  set (s1 := set_cq s rest). change (ops s1) with (ops s).
+  assert (Hlt : c_op c < length (ops s)).
+  { destruct Hh as [A _ _]. rewrite Hc in A. inversion A; assumption. }
+  destruct (nth_error (ops s) (c_op c)) as [o|] eqn:Hk; [|apply nth_error_None in Hk; lia].
+  assert (Hcq : forall x, occ x (cq_ids s1) + occ x (match c_id c with Some i => [i] | None => [] end) = occ x (cq_ids s)).
+  { intros x. unfold cq_ids, s1. cbn [released set_cq cq]. rewrite Hr, Hc. cbn [map].
+    change (opt_ids (c_id c :: map c_id rest)) with ((match c_id c with Some i => [i] | None => [] end) ++ opt_ids (map c_id rest)).
+    occs. lia. }
+  assert (Hk1 : nth_error (ops s1) (c_op c) = Some o) by exact Hk.
+  destruct (c_more c) eqn:Hmore.
+  - (* push_multishot *)
+    set (o' := mk_op (o_inflight o) (o_kdone o) (o_buf o) (o_q o ++ [c_id c]) (o_res o)).
+    cbn [good]. split.
+    + apply (pinv_shift [] [] [] [] s _ P).
+      * repeat split.
+      * intros x. pose proof (sums_upd_op s1 (c_op c) o o' x Hk1) as (A & _).
+        unfold guard_ids_of in A. change (released s1) with (released s) in A. rewrite Hr in A. cbn [o_q o'] in A.
+        rewrite opt_ids_app in A. occs in A.
+        change (opt_ids [c_id c]) with (match c_id c with Some i => [i] | None => [] end ++ []) in A.
+        rewrite app_nil_r in A. specialize (Hcq x). unfold Ssum in *.
+        change (guard_ids s1) with (guard_ids s) in A. change (loose s1) with (loose s) in A. lia.
+      * intros x. pose proof (sums_upd_op s1 (c_op c) o o' x Hk1) as (_ & A). cbn [o_buf o'] in A.
+        change (Osum s1 x) with (Osum s x) in A. lia.
+      * intros A. congruence.
+    + apply (hinv_cqe s c rest o o'); try assumption; try reflexivity. intros A; congruence.
+  - destruct (c_id c) as [id|] eqn:Hid.
+    + (* set_result with a selected buffer *)
+      assert (P1 : pinv [id] [] s1).
+      { apply (pinv_shift [] [] [id] [] s _ P).
+        - repeat split.
+        - intros x. specialize (Hcq x). unfold Ssum.
+          change (guard_ids s1) with (guard_ids s). change (loose s1) with (loose s). occs. occs in Hcq. lia.
+        - intros x; reflexivity.
+        - intros A; congruence. }
+      destruct (pinv_slot_take id [] [] s1 P1 Hr) as (E & P2). rewrite E.
+      set (s2 := set_slots s1 (set_nth (slots s1) id false)) in *.
+      set (o' := mk_op (o_inflight o) (o_kdone o) [id] (o_q o) (Some (c_res c))).
+      set (s3 := set_nbusy (upd_op s2 (c_op c) o') _).
+      assert (P3 : pinv [] (o_buf o ++ []) s3).
+      { apply (pinv_shift [] [id] [] (o_buf o ++ []) s2 _ P2).
+        - repeat split.
+        - intros x. pose proof (sums_upd_op s2 (c_op c) o o' x Hk1) as (A & _).
+          unfold guard_ids_of in A. cbn [o_q o'] in A.
+          change (Ssum s3 x) with (Ssum (upd_op s2 (c_op c) o') x). lia.
+        - intros x. pose proof (sums_upd_op s2 (c_op c) o o' x Hk1) as (_ & A). cbn [o_buf o'] in A.
+          change (Osum s3 x) with (Osum (upd_op s2 (c_op c) o') x). rewrite app_nil_r. occs in A. occs. lia.
+        - intros A. change (released s2) with (released s) in A. congruence. }
+      destruct (pinv_reset_all (o_buf o) [] [] s3 P3) as (s4 & E4 & P4 & Hs4). rewrite E4. cbn [good].
+      split; [exact P4|]. apply (hinv_same_holders s3 s4 Hs4).
+      eapply (hinv_same (upd_op s1 (c_op c) o')); [reflexivity|reflexivity|reflexivity|].
+      apply (hinv_cqe s c rest o o'); try assumption; try reflexivity; try congruence. intros _; discriminate.
+    + set (o' := mk_op (o_inflight o) (o_kdone o) (o_buf o) (o_q o) (Some (c_res c))).
+      cbn [good]. split.
+      * apply (pinv_shift [] [] [] [] s _ P).
+        -- repeat split.
+        -- intros x. pose proof (sums_upd_op s1 (c_op c) o o' x Hk1) as (A & _).
+           unfold guard_ids_of in A. cbn [o_q o'] in A. specialize (Hcq x). occs in Hcq. unfold Ssum in *.
+           change (cq_ids (set_nbusy (upd_op s1 (c_op c) o') _)) with (cq_ids (upd_op s1 (c_op c) o')).
+           change (guard_ids (set_nbusy (upd_op s1 (c_op c) o') _)) with (guard_ids (upd_op s1 (c_op c) o')).
+           change (loose (set_nbusy (upd_op s1 (c_op c) o') _)) with (loose (upd_op s1 (c_op c) o')).
+           change (guard_ids s1) with (guard_ids s) in A. change (loose s1) with (loose s) in A. lia.
+        -- intros x. pose proof (sums_upd_op s1 (c_op c) o o' x Hk1) as (_ & A). cbn [o_buf o'] in A.
+           change (Osum (set_nbusy (upd_op s1 (c_op c) o') _) x) with (Osum (upd_op s1 (c_op c) o') x).
+           change (Osum s1 x) with (Osum s x) in A. lia.
+        -- intros A. congruence.
+      * eapply (hinv_same (upd_op s1 (c_op c) o')); [reflexivity|reflexivity|reflexivity|].
+        apply (hinv_cqe s c rest o o'); try assumption; try reflexivity; try congruence. intros _; discriminate.
+Qed.
+
+Theorem step_good s l : inv s -> good s (step s l).
+Proof.
+  intros H. destruct l.
+  - apply step_LPop; exact H.
+  - apply step_LPendDrop; exact H.
+  - apply step_LOpNew; exact H.
+  - apply step_LSubmit; exact H.
+  - apply step_LKernel; exact H.
+  - apply step_LCqe; exact H.
+  - apply step_LPopMs; exact H.
+  - apply step_LTakeLoose; exact H.
+  - apply step_LOpMove; exact H.
+  - apply step_LDropHandle; exact H.
+  - apply step_LOpBufDrop; exact H.
+  - apply step_LGuardDrop; exact H.
+  - apply step_LRelease; exact H.
+  - apply step_LCqDrain; exact H.
+Qed.
+
+(* ====================================================================== *)
+(* 6. creation, reachability                                               *)
+
+Lemma filter_true {A} (l : list A) : filter (fun _ => true) l = l.
+Proof. induction l as [|a l IH]; [reflexivity|cbn [filter]; f_equal; exact IH]. Qed.
+
+Lemma occ_seq x n : occ x (seq 0 n) = if Nat.ltb x n then 1 else 0.
+Proof.
+  pose proof (occ_filter_seq (fun _ => true) n x) as H. rewrite filter_true in H. exact H.
+Qed.
+
+Lemma nth_repeat_lt {A} (a d : A) n i : i < n -> nth i (repeat a n) d = a.
+Proof.
+  revert i; induction n as [|n IH]; intros [|i] H; cbn [repeat nth]; try lia; auto. apply IH. lia.
+Qed.
+
+Lemma set_nth_app_mid {A} (l1 l2 : list A) a x : set_nth (l1 ++ a :: l2) (length l1) x = l1 ++ x :: l2.
+Proof. induction l1 as [|b l1 IH]; [reflexivity|cbn [app length set_nth]; f_equal; exact IH]. Qed.
+
+Lemma init_ring_spec m : forall j s,
+  pow2_le15 (nbuf s) -> j + m = nbuf s -> tail s = 0%N ->
+  cells s = seq 0 j ++ repeat 0 m ->
+  init_ring s (seq j m) = Ok (set_ring s (seq 0 (nbuf s)) 0%N (head s)).
+Proof.
+  induction m as [|m IH]; intros j s Hp Hj Ht Hc.
+  - cbn [seq init_ring]. rewrite Nat.add_0_r in Hj. cbn [repeat] in Hc. rewrite app_nil_r in Hc.
+    rewrite <- Hj, <- Hc, <- Ht. destruct s; reflexivity.
+  - cbn [seq init_ring].
+    pose proof (pow2_bound _ Hp) as Hb.
+    assert (Hjn : (NN j < NN (nbuf s))%N) by (unfold NN; lia).
+    assert (Hadd : add_buffer s j (NN j) =
+                   Ok (set_ring s (seq 0 (S j) ++ repeat 0 m) 0%N (head s))).
+    { unfold add_buffer, ring_idx, u16_add. rewrite Ht, N.add_0_l.
+      destruct (N.ltb_spec (NN j) U16) as [_|H]; [|unfold U16 in H; lia]. cbn [rbind].
+      rewrite N.mod_small by exact Hjn. rewrite nn_NN.
+      rewrite Hc, app_length, seq_length, repeat_length.
+      destruct (Nat.ltb_spec j (j + S m)) as [_|H]; [|lia]. cbn [rbind]. f_equal.
+      unfold set_ring. f_equal. cbn [repeat].
+      pose proof (set_nth_app_mid (seq 0 j) (repeat 0 m) 0 j) as E. rewrite seq_length in E. rewrite E.
+      rewrite seq_S, <- app_assoc. reflexivity. }
+    rewrite Hadd. cbn [rbind].
+    rewrite (IH (S j)); try (unfold set_ring; cbn [nbuf tail cells]; first [exact Hp|lia|reflexivity]).
+Qed.
+
+Lemma map_cell_id n : map (fun i => nth i (seq 0 n) 0) (seq 0 n) = seq 0 n.
+Proof.
+  transitivity (map (fun i : nat => i) (seq 0 n)); [|apply map_id].
+  apply map_ext_in. intros i Hi. apply in_seq in Hi. rewrite seq_nth by lia. reflexivity.
+Qed.
+
+Lemma pool_new_inv u size :
+  1 <= size -> (NN size <= 32768)%N ->
+  exists s0, pool_new u size = Ok s0 /\ inv s0 /\ size <= nbuf s0 /\ uring s0 = u /\ released s0 = false /\
+             ring_ids s0 = seq 0 (nbuf s0) /\ cq s0 = [] /\ ops s0 = [] /\ pend s0 = [] /\ loose s0 = [] /\
+             handles s0 = [] /\ nbusy s0 = 0 /\
+             (u = true -> cells s0 = seq 0 (nbuf s0) /\ tail s0 = NN (nbuf s0) /\ head s0 = 0%N).
+Proof.
+  intros H1 Hs. unfold pool_new.
+  destruct (Nat.eqb_spec size 0) as [H0|_]; [lia|].
+  destruct (next_pow2_spec (NN size) ltac:(unfold NN; lia) Hs) as (e & He & Hnp & Hge).
+  rewrite Hnp. cbn [rbind].
+  set (n := nn (2 ^ e)%N).
+  assert (Hp : pow2_le15 n) by (exists e; split; [exact He|unfold n, nn, NN; apply N2Nat.id]).
+  assert (Hn : size <= n) by (unfold n, nn, NN in *; lia).
+  pose proof (pow2_bound _ Hp) as Hb.
+  set (s0 := mk_st u n (repeat 0 n) 0%N 0%N [] (repeat true n) false [] [] [] [] [] [] 0).
+  assert (Hfin : exists s1, (if u then let! s1 := init_ring s0 (seq 0 n) in Ok (commit s1 (NN n))
+                             else Ok (set_queue (set_ring s0 [] 0%N 0%N) (seq 0 n))) = Ok s1 /\
+                 uring s1 = u /\ nbuf s1 = n /\ slots s1 = repeat true n /\ released s1 = false /\
+                 ring_ids s1 = seq 0 n /\ cq s1 = [] /\ ops s1 = [] /\ pend s1 = [] /\ loose s1 = [] /\
+                 handles s1 = [] /\ freed s1 = [] /\ nbusy s1 = 0 /\ (u = true -> ring_wf s1) /\
+                 (u = true -> cells s1 = seq 0 n /\ tail s1 = NN n /\ head s1 = 0%N)).
+  { destruct u.
+    - rewrite (init_ring_spec n 0 s0 Hp ltac:(reflexivity) ltac:(reflexivity) ltac:(reflexivity)).
+      cbn [rbind].
+      assert (Ht : u16_wrapping_add 0 (NN n) = NN n).
+      { unfold u16_wrapping_add. rewrite N.add_0_l. apply N.mod_small. unfold U16. lia. }
+      set (s1 := mk_st true n (seq 0 n) (NN n) 0%N [] (repeat true n) false [] [] [] [] [] [] 0).
+      assert (Es1 : commit (set_ring s0 (seq 0 (nbuf s0)) 0%N (head s0)) (NN n) = s1).
+      { unfold commit, set_ring, s0, s1. cbn [uring nbuf cells tail head queue slots released pend ops cq loose handles freed nbusy].
+        rewrite Ht. reflexivity. }
+      rewrite Es1. exists s1. split; [reflexivity|].
+      assert (Htl : tail s1 = ((head s1 + NN n) mod U16)%N).
+      { cbn [tail head s1]. rewrite N.add_0_l. symmetry. apply N.mod_small. unfold U16. lia. }
+      assert (Hwf : ring_wf s1).
+      { constructor.
+        - cbn [cells nbuf s1]. apply seq_length.
+        - cbn [head s1]. reflexivity.
+        - exists n. split; [cbn [nbuf s1]; lia|exact Htl]. }
+      assert (Hri : ring_ids s1 = seq 0 n).
+      { rewrite ring_ids_uring by reflexivity.
+        rewrite (ring_count_of s1 n Hp ltac:(reflexivity) ltac:(cbn [nbuf s1]; lia) Htl).
+        rewrite <- (map_cell_id n) at 2. apply map_ext_in. intros i Hi. apply in_seq in Hi.
+        unfold cell_at. rewrite kernel_idx_mod by exact Hp.
+        cbn [cells head nbuf s1]. rewrite N.add_0_l, N.mod_small by (unfold NN; lia).
+        rewrite nn_NN. reflexivity. }
+      split; [reflexivity|]. split; [reflexivity|]. split; [reflexivity|]. split; [reflexivity|].
+      split; [exact Hri|]. split; [reflexivity|]. split; [reflexivity|]. split; [reflexivity|].
+      split; [reflexivity|]. split; [reflexivity|]. split; [reflexivity|]. split; [reflexivity|].
+      split; [intros _; exact Hwf|]. intros _. split; [reflexivity|]. split; reflexivity.
+    - set (s1 := mk_st false n [] 0%N 0%N (seq 0 n) (repeat true n) false [] [] [] [] [] [] 0).
+      exists s1. split; [reflexivity|].
+      split; [reflexivity|]. split; [reflexivity|]. split; [reflexivity|]. split; [reflexivity|].
+      split; [reflexivity|]. split; [reflexivity|]. split; [reflexivity|]. split; [reflexivity|].
+      split; [reflexivity|]. split; [reflexivity|]. split; [reflexivity|]. split; [reflexivity|].
+      split; intros A; discriminate. }
+  destruct Hfin as (s1 & E & Hu & Hnb & Hsl & Hr & Hri & Hcq & Hops & Hpe & Hlo & Hha & Hfr & Hnb' & Hwf & Hcells).
+  exists s1. split; [exact E|].
+  assert (HS : forall x, Ssum s1 x = 0).
+  { intros x. unfold Ssum, cq_ids, guard_ids. rewrite Hr, Hcq, Hops, Hlo. reflexivity. }
+  assert (HO : forall x, Osum s1 x = 0).
+  { intros x. unfold Osum, opbuf_ids, handle_ids. rewrite Hops, Hpe, Hha. reflexivity. }
+  split; [|rewrite Hnb; repeat split; try assumption; try (rewrite <- Hnb; assumption);
+           try (intros A; destruct (Hcells A) as (B & C & D); assumption)].
+  split.
+  - constructor.
+    + rewrite Hnb. exact Hp.
+    + intros x Hx. unfold tot. rewrite HS, HO, Hri, Hfr, occ_seq, !occ_nil.
+      rewrite Hnb in Hx. destruct (Nat.ltb_spec x n); lia.
+    + intros x Hx. unfold tot. rewrite HS, HO, Hri, Hfr, occ_seq, !occ_nil.
+      rewrite Hnb in Hx. destruct (Nat.ltb_spec x n); lia.
+    + intros A _. apply Hwf. congruence.
+    + intros _. rewrite Hsl, Hnb, repeat_length. split; [reflexivity|].
+      intros x Hx. rewrite nth_repeat_lt by exact Hx. rewrite HS, Hri, occ_seq, occ_nil.
+      destruct (Nat.ltb_spec x n); [|lia]. split; [lia|reflexivity].
+    + intros A. congruence.
+    + intros _. exact Hfr.
+  - constructor.
+    + rewrite Hcq. constructor.
+    + rewrite Hops. constructor.
+    + intros _ k o Hk. rewrite Hops in Hk. destruct k; discriminate.
+Qed.
+
+(* reachable states *)
+Lemma steps_inv ls : forall s r, inv s -> steps s ls = r ->
+  match r with Some (Ok s') => inv s' | Some (Panic _) => False | None => True end.
+Proof.
+  induction ls as [|l ls IH]; intros s r H E.
+  - cbn [steps] in E. subst r. exact H.
+  - cbn [steps] in E. pose proof (step_good s l H) as G.
+    destruct (step s l) as [[s1|c]|]; cbn [good] in G.
+    + apply (IH s1 r G E).
+    + contradiction.
+    + subst r. exact I.
+Qed.
+
+Definition reach (u : bool) (size : nat) (ls : list label) (s : st) : Prop :=
+  exists s0, pool_new u size = Ok s0 /\ steps s0 ls = Some (Ok s).
+
+Lemma reach_inv u size ls s :
+  1 <= size -> (NN size <= 32768)%N -> reach u size ls s -> inv s.
+Proof.
+  intros H1 H2 (s0 & E0 & Es).
+  destruct (pool_new_inv u size H1 H2) as (s0' & E0' & I0 & _).
+  rewrite E0 in E0'. injection E0' as <-.
+  apply (steps_inv ls s0 _ I0 Es).
+Qed.
